@@ -30,3 +30,13 @@ ERRORS = [
     "Feature: f\n", "  Scenario: s\n", "    Given x\n", "      | a |\n", "      | a | b |\n", "  @bad tag\n", "# language: xx\n", "junk\n",
     "    Examples:\n", '      """\n', "  Rule: r\n", "  @t\n", "Feature: g\n", "  Background:\n",
 ]
+
+# tables: rectangular and ragged data / examples tables, escapes
+TABLES = [
+    "Feature: f\n", "  Scenario Outline: s <a>\n", "    Given <a> x\n", "    Examples:\n", "      | a |\n", "      | a | b |\n", "      | \\| | \\n |\n",
+    "      |  |\n", "      ||\n", "  # c\n", "\n", "    | x\\\\ | <a> |\n",
+]
+
+# dialect switching: French and English keyword lines, header at different positions
+DIALECT = ["# language: fr\n", "Fonctionnalité: f\n", "Feature: f\n", "  Scénario: s\n", "  Scenario: s\n", "    Soit x\n", "    Given x\n", "  @t\n", "# c\n", "\n",
+           "    * y\n", "# language: en\n"]
